@@ -420,6 +420,45 @@ fn f64_spaces(ctx: &Ctx, nmax: usize, cap: u64) {
     }
 }
 
+/// uniformly scaled integer bands: conditioning is scale invariant, every pivot candidate can be far below 1e-16
+fn scaled_f64_space(ctx: &Ctx, nmax: usize) {
+    let scales = [2f64.powi(-60), 1e-18, 2f64.powi(40)];
+    let letters = [0.0, 1.0, -1.0, 2.0];
+    let lr = [r(0), r(1), r(-1), r(2)];
+    for c in all_cfgs(1, nmax, 10) {
+        let sl = slots(c);
+        if sl.len() > 8 {
+            continue;
+        }
+        let len = pow(4, sl.len() as u32);
+        ctx.lattice(
+            &format!("f64 n={} m1={} m2={} integer bands over {{0,1,-1,2}} uniformly scaled by {{2^-60,1e-18,2^40}}", c.n, c.m1, c.m2),
+            len * 3,
+            |idx| format!("{}", idx),
+            |idx, acc| {
+                let mut d = vec![0usize; sl.len()];
+                digits_uniform(idx / 3, 4, &mut d);
+                let twin: Vec<Rat> = d.iter().map(|&k| lr[k]).collect();
+                if model::det(&dense(c, &sl, &twin)).is_zero() {
+                    return;
+                }
+                let sc = scales[(idx % 3) as usize];
+                let vals: Vec<f64> = d.iter().map(|&k| letters[k] * sc).collect();
+                acc.nontriv("uniformly scaled band");
+                let mut local = Acc::new("t");
+                let res = catch(|| check_f64(c, &sl, &vals, &mut local));
+                acc.merge_worst(local);
+                let key = || format!("f64 scaled n={} m1={} m2={} band={:?}", c.n, c.m1, c.m2, vals);
+                match res {
+                    Ok(Ok(())) => {}
+                    Ok(Err(e)) => acc.fail(idx, key(), e),
+                    Err(p) => acc.fail(idx, key(), format!("unexpected panic: {}", p)),
+                }
+            },
+        );
+    }
+}
+
 fn complex_space(ctx: &Ctx, nmax: usize, cap: u64) {
     let letters: Vec<(Cmplx, model::CQ)> = vec![
         (Cmplx::new(0., 0.), model::CQ::new(r(0), r(0))),
@@ -642,6 +681,13 @@ impl Sut for St {
         }
         self.check()
     }
+    fn warm(&self) {
+        let n = self.c.n;
+        let rhs: Vec<Rat> = (0..n).map(|k| r(1 + k as i64)).collect();
+        let _ = catch(|| self.b.det());
+        let _ = catch(|| self.b.solve(&model::to_vector(&rhs)));
+        let _ = catch(|| &self.b * &model::to_vector(&rhs));
+    }
     fn check(&self) -> Result<(), String> {
         let sl = self.sl();
         let n = self.c.n;
@@ -730,6 +776,7 @@ fn main() {
         }
     }
     f64_spaces(&ctx, ctx.pick(3, 4), ctx.pick(300_000u64, 20_000_000u64));
+    scaled_f64_space(&ctx, ctx.pick(3, 4));
     complex_space(&ctx, ctx.pick(3, 3), ctx.pick(100_000u64, 11_000_000u64));
 
     let depth = ctx.pick(4, 6);
@@ -742,7 +789,8 @@ fn main() {
     }
     explore(&ctx, "banded histories n=3", inits.clone(), BfsOpts { max_depth: depth, state_cap: ctx.pick(1_500_000, 30_000_000) });
     if ctx.quick() {
-        crosscheck_stateright(&ctx, "banded histories n=3", inits, depth);
+        crosscheck_stateright(&ctx, "banded histories n=3", inits.clone(), depth);
     }
+    explore_replayed(&ctx, "clone-free histories on one Banded<Rat>", inits, BfsOpts { max_depth: ctx.pick(4, 5), state_cap: 2_000_000 });
     std::process::exit(ctx.finish());
 }
